@@ -582,7 +582,7 @@ impl<'a> SamplerRun<'a> {
         let longest = coarse.iter().filter(|e| e.curved).map(|e| e.s1 - e.s0).fold(0.0, f64::max);
         if self.curved {
             // table entries: Begin, Line, closing End, and one per flattened line of each curve
-            o.t("len").f(len).t("edges").u(count_table_entries(self.cmds) - self.cmds.iter().filter(|c| matches!(c, Cmd::Q(..) | Cmd::C(..))).count() as u64 + coarse.iter().filter(|e| e.curved).count() as u64);
+            o.t("len").f(len).t("alen").f(alen).t("edges").u(count_table_entries(self.cmds) - self.cmds.iter().filter(|c| matches!(c, Cmd::Q(..) | Cmd::C(..))).count() as u64 + coarse.iter().filter(|e| e.curved).count() as u64);
         } else {
             o.t("len").f(len).t("alen").f(alen).t("edges").u(count_table_entries(self.cmds));
         }
@@ -1002,28 +1002,65 @@ enum Pattern {
 }
 
 struct WalkOut {
-    events: Vec<(Pt, lyon_geom::Vector<f32>, f32)>,
+    events: Vec<(Pt, lyon_geom::Vector<f32>, f32, Vec<f32>)>,
 }
 
-fn run_walk(path: &Path, start: f32, tol: f32, pat: &Pattern, cap: usize) -> WalkOut {
-    let mut events = Vec::new();
-    let mut n = 0usize;
+/// `nattr == 0`: `walk_along_path` on the built path (the public entry point).
+/// `nattr > 0`: the same loop (`path_event`, stop when the pattern said stop) over
+/// `PathWalker::with_attributes`, which `walk_along_path` cannot reach.
+fn run_walk(cmds: &[Cmd], nattr: usize, start: f32, tol: f32, pat: &Pattern, cap: usize) -> WalkOut {
+    use std::cell::{Cell, RefCell};
+    let events = RefCell::new(Vec::new());
+    let n = Cell::new(0usize);
+    let stopped = Cell::new(false);
     let mut cb = |e: WalkerEvent| {
-        events.push((e.position, e.tangent, e.distance));
-        n += 1;
-        n <= cap
+        events.borrow_mut().push((e.position, e.tangent, e.distance, e.attributes.to_vec()));
+        n.set(n.get() + 1);
+        let go = n.get() <= cap;
+        if !go {
+            stopped.set(true);
+        }
+        go
+    };
+    let mut drive = |pattern: &mut dyn lyon_algorithms::walk::Pattern| {
+        if nattr == 0 {
+            let path = build_path(cmds, 0);
+            walk_along_path(path.iter(), start, tol, pattern);
+        } else {
+            let mut w = lyon_algorithms::walk::PathWalker::with_attributes(nattr, start, tol, pattern);
+            for c in cmds {
+                match c {
+                    Cmd::B(p, a) => {
+                        w.begin(*p, a);
+                    }
+                    Cmd::L(p, a) => {
+                        w.line_to(*p, a);
+                    }
+                    Cmd::Q(c1, p, a) => {
+                        w.quadratic_bezier_to(*c1, *p, a);
+                    }
+                    Cmd::C(c1, c2, p, a) => {
+                        w.cubic_bezier_to(*c1, *c2, *p, a);
+                    }
+                    Cmd::E(cl) => w.end(*cl),
+                }
+                if stopped.get() {
+                    break;
+                }
+            }
+        }
     };
     match pat {
         Pattern::Reg(i) => {
             let mut p = RegularPattern { callback: &mut cb, interval: *i };
-            walk_along_path(path.iter(), start, tol, &mut p);
+            drive(&mut p);
         }
         Pattern::Rep(v, idx) => {
             let mut p = RepeatedPattern { callback: &mut cb, intervals: &v[..], index: *idx };
-            walk_along_path(path.iter(), start, tol, &mut p);
+            drive(&mut p);
         }
     }
-    WalkOut { events }
+    WalkOut { events: events.into_inner() }
 }
 
 fn pattern_request(pat: &Pattern, k: usize) -> f32 {
@@ -1033,14 +1070,15 @@ fn pattern_request(pat: &Pattern, k: usize) -> f32 {
     }
 }
 
-fn walk_case(ctx: &mut Ctx, family: &'static str, fixed: Option<(Vec<Cmd>, f32, Pattern, usize, &'static str)>) {
+fn walk_case(ctx: &mut Ctx, family: &'static str, fixed: Option<(Vec<Cmd>, usize, f32, Pattern, usize, &'static str)>) {
     let curved = family == "curved_walk";
     ctx.case(family, move |rng| {
-        let (cmds, start, pat, cap, tag) = match fixed {
-            Some((c, s, p, cap, t)) => (c, s, p, cap, t.to_string()),
+        let (cmds, nattr, start, pat, cap, tag) = match fixed {
+            Some((c, na, s, p, cap, t)) => (c, na, s, p, cap, t.to_string()),
             None => {
                 let coords = if rng.chance(1, 2) { Coords::Lattice } else { Coords::Uniform };
-                let (cmds, shape) = gen_path(rng, 0, curved, coords);
+                let nattr = *rng.pick(&[0usize, 0, 0, 1, 2]);
+                let (cmds, shape) = gen_path(rng, nattr, curved, coords);
                 let approx_len = *vertex_distances(&cmds).last().unwrap();
                 let start = match rng.below(8) {
                     0 => 0.0,
@@ -1073,9 +1111,10 @@ fn walk_case(ctx: &mut Ctx, family: &'static str, fixed: Option<(Vec<Cmd>, f32, 
                 };
                 let cap = if nonpos { rng.range(3, 12) as usize } else { rng.range(1, 120) as usize };
                 let tag = format!(
-                    "{} {:?} {} {}{}{}",
+                    "{} {:?} attrs{} {} {}{}{}",
                     family,
                     coords,
+                    nattr,
                     shape,
                     match &pat {
                         Pattern::Reg(_) => "regular",
@@ -1084,7 +1123,7 @@ fn walk_case(ctx: &mut Ctx, family: &'static str, fixed: Option<(Vec<Cmd>, f32, 
                     if nonpos { " nonpositive" } else { "" },
                     if cmds.is_empty() { " trivial" } else { "" }
                 );
-                (cmds, start, pat, cap, tag)
+                (cmds, nattr, start, pat, cap, tag)
             }
         };
         let tol = if curved { *rng.pick(&[0.01f32, 0.05, 0.1]) } else { 0.1 };
@@ -1092,7 +1131,7 @@ fn walk_case(ctx: &mut Ctx, family: &'static str, fixed: Option<(Vec<Cmd>, f32, 
         if curved {
             args.f(tol);
         }
-        args.f(start).u(cap as u64);
+        args.u(nattr as u64).f(start).u(cap as u64);
         match &pat {
             Pattern::Reg(i) => {
                 args.t("reg").f(*i);
@@ -1104,15 +1143,18 @@ fn walk_case(ctx: &mut Ctx, family: &'static str, fixed: Option<(Vec<Cmd>, f32, 
                 }
             }
         }
-        put_cmds(&mut args, &cmds, false);
+        put_cmds(&mut args, &cmds, true);
         (args, tag, move || {
             let mut o = Out::new();
             let mut orc = Oracle::new();
-            let path = build_path(&cmds, 0);
-            let w = run_walk(&path, start, tol, &pat, cap);
+            let path = build_path(&cmds, nattr);
+            let w = run_walk(&cmds, nattr, start, tol, &pat, cap);
             o.t("n").u(w.events.len() as u64);
-            for (p, t, d) in &w.events {
+            for (p, t, d, a) in &w.events {
                 o.p(*p).v(*t).f(*d);
+                for x in a {
+                    o.f(*x);
+                }
             }
             check_walk(&mut orc, &cmds, &path, start, tol, &pat, cap, &w, curved);
             if curved && has_degenerate_curve(&cmds, tol) {
@@ -1158,7 +1200,7 @@ fn check_walk(orc: &mut Oracle, cmds: &[Cmd], path: &Path, start: f32, tol: f32,
     }
     // cumulative distances: exactly the f32 running sum of the requests
     let mut acc = 0.0f32;
-    for (k, (p, t, d)) in w.events.iter().enumerate() {
+    for (k, (p, t, d, _attrs)) in w.events.iter().enumerate() {
         acc += consumed[k];
         orc.check(*d == acc, "walker.event/cumulative-distance", "generic", || format!("event {} distance {} expected {}", k, d, acc));
         let pp = p64(*p);
@@ -1222,11 +1264,13 @@ fn witness_cases(ctx: &mut Ctx) {
     // the same paths are fine when asked anywhere else
     sampler_case(ctx, "sampler", Some((vec![b(0.0, 0.0), Cmd::E(false), b(1.0, 0.0), l(2.0, 0.0), Cmd::E(false)], 0, false, vec![Query::S(0.5), Query::S(1.0), Query::S(0.25), Query::R(0.25, 0.75)], "witness single-point-subpath other-distances")));
     // walker: zero and negative interval (callback cap 8)
-    walk_case(ctx, "walk", Some((vec![b(0.0, 0.0), l(10.0, 0.0), Cmd::E(false)], 0.0, Pattern::Reg(0.0), 8, "witness walker zero-interval nonpositive")));
-    walk_case(ctx, "walk", Some((vec![b(0.0, 0.0), l(10.0, 0.0), Cmd::E(false)], 1.0, Pattern::Reg(-1.0), 8, "witness walker negative-interval nonpositive")));
+    walk_case(ctx, "walk", Some((vec![b(0.0, 0.0), l(10.0, 0.0), Cmd::E(false)], 0, 0.0, Pattern::Reg(0.0), 8, "witness walker zero-interval nonpositive")));
+    walk_case(ctx, "walk", Some((vec![b(0.0, 0.0), l(10.0, 0.0), Cmd::E(false)], 0, 1.0, Pattern::Reg(-1.0), 8, "witness walker negative-interval nonpositive")));
+    // walker attributes as the code computes them (recorded, not demanded): 0→10 edge, interval 2
+    walk_case(ctx, "walk", Some((vec![Cmd::B(point(0.0, 0.0), vec![0.0]), Cmd::L(point(10.0, 0.0), vec![10.0]), Cmd::E(false)], 1, 0.0, Pattern::Reg(2.0), 100, "witness walker attributes t2")));
     // lyon's own tests
-    walk_case(ctx, "walk", Some((vec![b(0.0, 0.0), l(6.0, 0.0), l(6.0, 6.0), l(0.0, 6.0), Cmd::E(true)], 0.0, Pattern::Reg(2.0), 100, "witness walk_square")));
-    walk_case(ctx, "walk", Some((vec![b(0.0, 0.0), l(5.0, 0.0), l(5.0, 5.0), l(0.0, 5.0), Cmd::E(true)], 1.0, Pattern::Reg(3.0), 100, "witness walk_with_leftover")));
+    walk_case(ctx, "walk", Some((vec![b(0.0, 0.0), l(6.0, 0.0), l(6.0, 6.0), l(0.0, 6.0), Cmd::E(true)], 0, 0.0, Pattern::Reg(2.0), 100, "witness walk_square")));
+    walk_case(ctx, "walk", Some((vec![b(0.0, 0.0), l(5.0, 0.0), l(5.0, 5.0), l(0.0, 5.0), Cmd::E(true)], 0, 1.0, Pattern::Reg(3.0), 100, "witness walk_with_leftover")));
 }
 
 fn main() {
